@@ -114,6 +114,8 @@ def build(prog, ctx=None, variants=None, max_visits=2):
         return None, {}
     unify_name = body.path
     # the name under which calls to unify appear (resolved path)
+    if ctx is not None and getattr(ctx, "tier", "quick") == "thorough":
+        max_visits += 1
     w = Walker(body, max_visits=max_visits)
     selfp = ("param", 1, body.locals[1].get("name") or "")
     otherp = ("param", 2, body.locals[2].get("name") or "")
